@@ -222,6 +222,14 @@ class DBusClientConnection (txdbus.protocol.BasicDBusProtocol):
             the match rule
         """
 
+        # the rule registered locally once the bus has answered is the one
+        # whose text goes out now, whatever the caller does with its lists
+        # in the meantime
+        if arg:
+            arg = list(arg)
+        if arg_path:
+            arg_path = list(arg_path)
+
         l = []
 
         def add(k, v):
